@@ -90,10 +90,10 @@ theorem matches_altLits {lk : LookFn} : ∀ (pats : List Bytes) {hay : Bytes} {s
         exact ⟨q, by simp [hq], h⟩
 
 /-- whichever route `ConfiguredHIR::new` takes, the resulting expression never matches a terminator byte -/
-theorem configuredHir_noTerm {lk : LookFn} {cfg : Config} {pats : List Bytes} {translated h0 : Hir}
-    {lt : LineTerm} (hcfg : cfg.configuredHir pats translated = .ok h0) (hlt : cfg.lineTerm = some lt)
+theorem configuredHir_noTerm {lk : LookFn} {cfg : Config} {norm : Hir → Hir} {pats : List Bytes} {translated h0 : Hir}
+    {lt : LineTerm} (hcfg : cfg.configuredHir norm pats translated = .ok h0) (hlt : cfg.lineTerm = some lt)
     {hay : Bytes} {s e : Nat} (hm : Matches lk h0 hay s e)
-    (hsound : ∀ h', strip translated lt = .ok h' → Matches lk h' hay s e → ∀ t ∈ lt.bytes, t ∉ slice hay s e) :
+    (hsound : ∀ h', stripN norm translated lt = .ok h' → Matches lk h' hay s e → ∀ t ∈ lt.bytes, t ∉ slice hay s e) :
     ∀ t ∈ lt.bytes, t ∉ slice hay s e := by
   unfold Config.configuredHir at hcfg
   split at hcfg
